@@ -144,7 +144,7 @@ def rand_line(rng, times):
 
 class C12(Property):
     id = "C12"
-    lean_module = "RosuModel.Props.C12Full"   # imports Props/C12.lean (→ Props/C13.lean); namespace Rosu.C12
+    lean_module = "RosuModel.Props.C12Full"   # imports Props/C12Exact.lean (→ Props/C12.lean → Props/C13.lean) and Props/C12Ieee.lean; namespace Rosu.C12
     theorem_modules = ['RosuModel.Props.C12Exact', 'RosuModel.Props.C12Ieee']   # files whose top-level theorems are all audited
     namespace = "Rosu.C12"
     design_ref = "5.12"
@@ -165,6 +165,9 @@ class C12(Property):
         "in its range with the scalar's own <=) and nan_inherited_line (NaN beat length on an inherited line: accepted, ticks off, velocity and scroll speed exactly 1); "
         "pending_eq_groups_finite (the sameGroup t t assumption discharged from the parser's range check, leaving FiniteSelfGroup: finite t has |t-t| < eps) and "
         "pending_eq_groups_exact (under ExactScalar of Lemmas/ExactArith.lean with eps > 0; instance on the reals: finiteSelfGroup_real); "
+        "Props/C12Ieee.lean instantiates all of this on the scalars the driver runs: NaNLaw, TpClampLaws, NanLaws and FiniteSelfGroup are theorems for Float and Float32 (Lean 4.33: Float is a structure over the "
+        "logical model Float.Model and reduces in the kernel; order theory in Lemmas/FloatModelCompare.lean), so clamps_float, clamps_ordinary_float, stored_not_nan_float, nan_inherited_line_float and "
+        "pending_eq_groups_float hold for IEEE doubles with no hypothesis about the numbers; "
         "lists_strictly_sorted_time (strictly increasing in TIME with one point per time, under C13's TimeKeyOn on the accepted times). "
         "Model tied to the code on every run through the public TimingPoints::parse_general / parse_timing_points / From on exhaustive short sequences "
         "over the property's line alphabet in all four modes + random long sequences (omitted trailing fields, malformed fields, comments, whitespace, "
@@ -187,24 +190,36 @@ class C12(Property):
         "speedMultiplier_not_nan", "between_of_within", "line_ordinary", "clamps_ordinary", "clamps_ordinary_fresh", "stored_not_nan",
         "nan_inherited_point_one", "nan_inherited_line", "pending_eq_groups_finite", "sameGroup_exact", "finiteSelfGroup_of_exact",
         "pending_eq_groups_exact", "lists_strictly_sorted_time", "nanLaws_zn", "clampLaws_zn", "finiteSelfGroup_real",
+        # Props/C12Ieee.lean: the law structures are theorems for the driver's Float (and Float32); headline theorems with no hypothesis left
+        "nanLaw_float", "tpClampLaws_float", "nanLaws_float", "sameGroup_self_float", "finiteSelfGroup_float",
+        "clamps_float", "clamps_ordinary_float", "clamps_ordinary_fresh_float", "stored_not_nan_float",
+        "nan_inherited_point_float", "nan_inherited_line_float", "pending_eq_groups_float",
+        "nanLaw_float32", "tpClampLaws_float32", "nanLaws_float32", "finiteSelfGroup_float32",
     ]
     partial_theorems = {
         "pending_eq_groups / pending_eq_groups_finite / pending_eq_groups_exact":
             "the reflexivity assumption is now discharged from the parser (accepted_time_inRange, no law: accepted times are within +-(2^31-1) and not NaN); what "
-            "remains is the single law FiniteSelfGroup (|t - t| < eps for such t), proved from ExactScalar with eps > 0 (reals) and on the toy Z, true for finite "
-            "IEEE values (t - t = +0) but not kernel-checked for Float (opaque)",
+            "remains is the single law FiniteSelfGroup (|t - t| < eps for such t), proved from ExactScalar with eps > 0 (reals) and on the toy Z, and NOW ALSO for the driver's "
+            "Float (Props/C12Ieee.lean; Lean 4.33's Float is a structure over the logical model Float.Model, so `-`, `abs`, `<` reduce in the kernel): FMO.sub_self_float (t - t = +0 exactly for "
+            "finite t, Lemmas/FloatModelCompare.lean) gives finiteSelfGroup_float : FiniteSelfGroup Float, and sameGroup_self_float shows every IEEE double, ±inf and NaN included, is in its own group "
+            "(the decoder tests the negation of |t - u| >= eps). Hence pending_eq_groups_float: the group refinement holds for IEEE doubles for every sequence of lines with NO hypothesis about the "
+            "numbers (only `no open group at the start`). Float32: finiteSelfGroup_float32",
         "clamps / clamps_ordinary / stored_not_nan":
             "that stored values are not NaN and lie in lo <= y <= hi in the ordinary sense is now proved for every line sequence, law-free for times and for "
             "'a timing point's raw beat length is not NaN', otherwise under NanLaws + TpClampLaws (facts about NaN, the literals and totality of < on numbers; "
-            "instance on a toy scalar with a NaN). IEEE f64 satisfies both law sets but that is not kernel-checked (the implementation-level oracle checks "
+            "instance on a toy scalar with a NaN). Both law sets are now THEOREMS for the driver's Float and Float32 (Props/C12Ieee.lean: nanLaw_float, tpClampLaws_float, nanLaws_float and the "
+            "_float32 twins — the literals are evaluated by `decide +kernel`, the order facts come from the class FMO.IeeeOrd of Lemmas/FloatModelCompare.lean, `100 / -b is a number` from FMO.isNaN_div_float), "
+            "so clamps_float, clamps_ordinary_float, clamps_ordinary_fresh_float and stored_not_nan_float hold for IEEE doubles with no law hypothesis left (the implementation-level oracle still checks "
             "6 <= beat_len etc. with IEEE comparisons on every case)",
         "nan_inherited_point / nan_inherited_point_one / nan_inherited_line":
             "law-dependent: 'NaN < 0 is false' (generate_ticks = false, multiplier 1) plus the literal comparisons not(1 < 0.1), not(10 < 1), not(1 < 0.01) for "
-            "'velocity and scroll speed are exactly 1'",
+            "'velocity and scroll speed are exactly 1'; for IEEE doubles the laws are theorems and nan_inherited_point_float / nan_inherited_line_float state the clause with no hypothesis about the arithmetic",
         "lists_strictly_sorted / lists_strictly_sorted_time":
             "lists_strictly_sorted is by the total_cmp key (holds for IEEE). 'Strictly increasing in TIME, one point per time' is proved under C13's TimeKeyOn S for "
             "the set S of accepted times (lists_strictly_sorted_time); for IEEE f64 that hypothesis holds unless the accepted times contain both +0.0 and -0.0 "
-            "(NaN times are rejected by the parser: accepted_time_inRange) - finding F8 is the only way this clause fails; not kernel-checked for Float",
+            "(NaN times are rejected by the parser: accepted_time_inRange) - finding F8 is the only way this clause fails. This is now a kernel-checked theorem about Float, proved in "
+            "Props/C13Ieee.lean (audited under C13, namespace Rosu.C13): C13.timeKeyOn_float_iff (TimeKeyOn S iff S has no NaN and not both zeros) and C13.lists_strictly_sorted_time_float "
+            "(accepted times not NaN and not -0.0 ⇒ four lists strictly increasing in time, one point per time). TimeKeyOn for Float32 is not proved",
     }
     trusted_base = [
         "Lean 4.33.0 kernel",
@@ -212,12 +227,16 @@ class C12(Property):
         "hand-written model Model/{Text,Num,ParseNum,KeyValue,Scalar,Basic,General,ControlPoints,TimingDecode}.lean tied to /repo by the differential run of this check",
         "std: str::{split, trim, trim_end, find, chars}, i32::from_str, f64/f32::from_str (exact codec of Model/FloatCodec.lean, differential cases included in this check), "
         "f64::{clamp, abs, is_nan, total_cmp}, slice::binary_search_by (contract, see C13)",
-        "Lean's Float for the driver instance (C double operations)",
+        "the *_float / *_float32 theorems are about Lean 4.33's logical float model Float.Model (Float is a structure over it; + - * / abs < <= == isNaN and literals reduce in the kernel); that the compiled "
+        "@[extern] C double / float operations the driver runs agree with that model is part of Lean's own trusted code base (compiler / runtime) and is compared with Rust bit for bit by the codec differential "
+        "of this run (fop64 / fop32 <add|sub|mul|div|sqrt|abs|neg|cmp|minmax>, castf32f64, castf64f32, castf64i32, castf32i32, ceilf64, ceilf32, usizef64) and by every `tp` request",
     ]
     assumptions = [
         "theorems are about the Lean model; the model is compared with the implementation only on the generated line sequences of this run",
         "law-dependent theorems (group refinement needs |t - t| < eps for finite t: FiniteSelfGroup; clamp ranges need lt to be irreflexive on the bounds: TpClampLaws; "
-        "the NaN clauses and the ordinary-sense ranges need NanLaws) take the law as an explicit hypothesis structure; the IEEE instance satisfies them but that is not kernel-checked",
+        "the NaN clauses and the ordinary-sense ranges need NanLaws) take the law as an explicit hypothesis structure in their generic form; for the driver's Float (and Float32) all of NaNLaw, TpClampLaws, "
+        "NanLaws, FiniteSelfGroup are kernel-checked theorems (Props/C12Ieee.lean) and the headline theorems are restated with no hypothesis (clamps_float, clamps_ordinary_float, stored_not_nan_float, "
+        "nan_inherited_line_float, pending_eq_groups_float)",
         "the implementation-level oracle judges sequences whose accepted lines are in its plain-number grammar and skips the rest (counted in the evidence)",
     ]
     nontrivial_rule = ("line sequences over the property's alphabet (exhaustive to a bounded length in all four modes, random beyond, with omitted "
